@@ -35,25 +35,31 @@ fn k1_body(ylo: isize, yhi: isize) {
 
 // ---- contract of JulianDay::get_solar_time ---------------------------------------------------------
 // requires: a Julian date inside the supported range 0001-01-01 00:00 .. 9999-12-31 24:00
-// ensures : for self.day == n - 0.5 with n an integer day number (the form every day-level caller uses):
-//           the result is a valid civil date at 00:00:00 whose day number is n. For fractional dates this
+// ensures : for self.day == n - 0.5 (midnight) or == n (noon) with n an integer day number (the forms the day-level
+//           callers use): the result is a valid civil date at 00:00:00 resp. 12:00:00 whose day number is n. For fractional dates this
 //           contract says nothing (obligations c12_k_jd_roundtrip / c12_jd_fraction cover the clock part).
 pub fn pre_get_solar_time(day: f64) -> bool {
   day >= (JDN_MIN as f64) - 0.5 && day < (JDN_MAX as f64) + 0.5
 }
 pub fn post_get_solar_time(day: f64, r: &SolarTime) -> bool {
   let n = (day + 0.5) as i64;
-  if day != (n as f64) - 0.5 { return true; }
   let (y, m, d) = (r.get_year() as i64, r.get_month() as i64, r.get_day() as i64);
-  spec::valid_date(y, m, d) && spec::jdn(y, m, d) == n && r.get_hour() == 0 && r.get_minute() == 0 && r.get_second() == 0
+  if day == (n as f64) - 0.5 {
+    // midnight form (civil dates): 00:00:00 of the date with day number n
+    spec::valid_date(y, m, d) && spec::jdn(y, m, d) == n && r.get_hour() == 0 && r.get_minute() == 0 && r.get_second() == 0
+  } else if day == n as f64 {
+    // noon form (first days of lunar months are integral Julian days): 12:00:00 of the date with day number n
+    spec::valid_date(y, m, d) && spec::jdn(y, m, d) == n && r.get_hour() == 12 && r.get_minute() == 0 && r.get_second() == 0
+  } else { true }
 }
 
 fn k3_body(nlo: isize, nhi: isize) {
   let n: i64 = kani::any();
   kani::assume(n >= nlo as i64 && n <= nhi as i64);
-  let jd = JulianDay::from_julian_day((n as f64) - 0.5);
+  let noon: bool = kani::any();
+  let jd = JulianDay::from_julian_day(if noon { n as f64 } else { (n as f64) - 0.5 });
   let r = jd.get_solar_time();
-  kani::cover!(n == nlo as i64, "k3 reachable");
+  kani::cover!(n == nlo as i64 && noon, "k3 reachable");
   let _ = r;
 }
 //@SLICES prefix=c01_k3_jd2ymd call=k3_body lo=1721424 hi=5373484 n=64 attr="#[kani::proof_for_contract(JulianDay::get_solar_time)]"
